@@ -30,7 +30,10 @@ RULE = (
     "patterns, or around the reference QR(16,7,6) codeword of every (colour code, PI, LCSS) (all 128 enumerated) with 32 "
     "embedded bits; payloads random / all-zero / all-one; voice_near_sync: for every SYNC word S of table 9.2 (10) and every EMB codeword "
     "E (128) the centre E[0:8]+S[8:40]+E[8:16] - the closest a valid-EMB centre gets to S - and neighbours with 1-2 "
-    "embedded bits flipped (the minimum distance reached is recorded in the evidence).  reuse: a case is two such data-burst states (second state: any non-empty subset of {payload, colour code, sync} changed; "
+    "embedded bits flipped (the minimum distance reached is recorded in the evidence); voice_sync_images: centres that are, "
+    "or are built around the middle 32 bits of, a transformed image of a SYNC word (48-bit bit reversal, byte / word "
+    "reversals, in-octet bit and nibble swaps, dibit swap, rotations, complement and complements of all of these; the "
+    "images that are themselves valid EMB centres are listed in the evidence).  reuse: a case is two such data-burst states (second state: any non-empty subset of {payload, colour code, sync} changed; "
     "a changed payload is new field values, another variant of the same PDU class or another class / data type) carried "
     "one after the other by the same Burst object.  Distinct by hash of the complete case.  Non-trivial: data bursts "
     "whose PDU bits are not all zero; voice bursts whose 216 vocoder bits are neither all zero nor all one; reuse cases whose two states serialise to different bytes."
@@ -80,6 +83,8 @@ for _d, _v in zip(DATA_SYNCS.values(), VOICE_SYNCS.values()):
     assert _d ^ _v == 0xAAAAAAAAAAAA and set("%012X" % _d) <= set("57DF") and set("%012X" % _v) <= set("57DF")
 assert trellis34_ref.selfcheck(), "trellis reference does not reproduce the captured rate 3/4 blocks"
 SYNC_NAMES = list(DATA_SYNCS)
+# data type values (TS 102 361-1 9.3.6) of the serialisable payload kinds
+DT_VALUES = {"PIHeader": 0, "VoiceLCHeader": 1, "TerminatorWithLC": 2, "CSBK": 3, "DataHeader": 6, "Rate12Data": 7, "Rate34Data": 8, "Rate1Data": 10}
 # every 48-bit pattern of table 9.2 (incl. reverse-channel and reserved SYNC): a burst centre equal to one of them is SYNC
 _ALL_SYNC_VALUES = set(DATA_SYNCS.values()) | set(VOICE_SYNCS.values()) | {0x77D55F7DFD77, 0xDD7FF5D757DD}
 VOICE_SYNC_NAMES = list(VOICE_SYNCS)
@@ -497,6 +502,17 @@ def drv_data_grid(ctx: Ctx, sub: SubCheck):
     ctx.tally.extra["grid_field_backgrounds_per_cell"] = reps
     ctx.tally.extra["grid_is_full_cross_product"] = True
     ctx.tally.extra["pdu_variants"] = len(G.VARIANTS)
+    # transformed images on the data side: slot-type (Golay(20,8,7)) codewords whose bit-reversed / half-swapped / complemented
+    # image is a codeword again (possibly of another colour code / data type).  The grid runs EVERY colour code with every
+    # serialisable data type, so each such word with a serialisable data type is exercised above; counted for the reader.
+    cws = {gf2.bits_to_int(gf2.ref_encode("golay_20_8_7", gf2.int_to_bits(m, 8))): m for m in range(256)}
+    supported = {DT_VALUES[k] for k in G.DATA_TYPE_OF_KIND.values()}
+    img = {"bit_reversal_20": lambda w: _rev_bits(w, 20), "half_swap_10_10": lambda w: ((w << 10) | (w >> 10)) & 0xFFFFF, "complement": lambda w: w ^ 0xFFFFF}
+    summary = {}
+    for name, fn in img.items():
+        hits = [(m, cws[fn(w)]) for w, m in cws.items() if fn(w) in cws and fn(w) != w]
+        summary[name] = {"codewords_whose_image_is_another_codeword": len(hits), "of_these_with_serialisable_data_type_(all_in_grid)": sum(1 for m, _ in hits if (m & 15) in supported)}
+    ctx.tally.extra["slot_type_codeword_images"] = summary
 
 
 def drv_data_boundary(ctx: Ctx, sub: SubCheck):
@@ -727,6 +743,97 @@ def drv_voice_boundary(ctx: Ctx, sub: SubCheck):
     ctx.tally.exhaustive[sub.name] = True
 
 
+def _rev_bits(v: int, n: int) -> int:
+    return int(format(v, "0%db" % n)[::-1], 2)
+
+
+def _per_octet(v: int, fn) -> int:
+    return int.from_bytes(bytes(fn(b) for b in v.to_bytes(6, "big")), "big")
+
+
+def _rot48(v: int, k: int) -> int:
+    return ((v << k) | (v >> (48 - k))) & (2**48 - 1)
+
+
+# transformed images of a 48-bit magic constant: the ways a word gets mangled by an endianness / ordering mix-up
+_IMAGE_TRANSFORMS = [
+    ("bit_reversal_48", lambda v: _rev_bits(v, 48)),
+    ("byte_reversal", lambda v: int.from_bytes(v.to_bytes(6, "big")[::-1], "big")),
+    ("byte_swap_in_16_bit_words", lambda v: int.from_bytes(b"".join(v.to_bytes(6, "big")[i : i + 2][::-1] for i in (0, 2, 4)), "big")),
+    ("word_order_reversal_16", lambda v: int.from_bytes(b"".join(v.to_bytes(6, "big")[i : i + 2] for i in (4, 2, 0)), "big")),
+    ("half_swap_24", lambda v: _rot48(v, 24)),
+    ("bit_reversal_in_octets", lambda v: _per_octet(v, lambda b: _rev_bits(b, 8))),
+    ("nibble_swap_in_octets", lambda v: _per_octet(v, lambda b: ((b << 4) | (b >> 4)) & 0xFF)),
+    ("dibit_swap", lambda v: ((v & 0xAAAAAAAAAAAA) >> 1) | ((v & 0x555555555555) << 1)),
+    ("rotation_8", lambda v: _rot48(v, 8)),
+    ("rotation_16", lambda v: _rot48(v, 16)),
+    ("rotation_32", lambda v: _rot48(v, 32)),
+    ("rotation_40", lambda v: _rot48(v, 40)),
+    ("identity", lambda v: v),
+]
+
+
+def _sync_images():
+    """[(sync value S, transform name, image C)] for every SYNC word, every transform and its complement; the untransformed
+    word itself is left out (it IS a SYNC pattern), its complement is kept"""
+    out = []
+    for S in sorted(_ALL_SYNC_VALUES):
+        for name, fn in _IMAGE_TRANSFORMS:
+            for comp in (False, True):
+                if name == "identity" and not comp:
+                    continue
+                C = fn(S) ^ (2**48 - 1 if comp else 0)
+                out.append((S, ("complement_of_" if comp else "") + name, C))
+    return out
+
+
+def drv_voice_sync_images(ctx: Ctx, sub: SubCheck):
+    """Transformed images of magic constants: for each SYNC word S and each transform T (bit / byte / word reversals,
+    in-octet bit and nibble swaps, dibit swap, rotations, complement and the complement of each) the image C = T(S).
+    (a) when the outer 16 bits of C are a valid EMB word, C itself is a legitimate voice-burst centre and is used as such;
+    (b) for EMB words E the centre E[0:8] + C[8:40] + E[8:16] (thorough: all 128 E; quick: the 8 codewords nearest to C's
+    outer bits and 8 seeded others).  Seeded vocoder bits, from_bits and from_bytes, same oracle as the other voice checks."""
+    _preimport()
+    words = [_emb_word(m) for m in range(128)]
+    word_index = {w: m for m, w in enumerate(words)}
+    images = _sync_images()
+    kind_a = []
+    cells = []
+    for S, tname, C in images:
+        outer, mid = ((C >> 40) << 8) | (C & 0xFF), (C >> 8) & 0xFFFFFFFF
+        if outer in word_index and C not in _ALL_SYNC_VALUES:
+            m = word_index[outer]
+            kind_a.append({"sync": "%012X" % S, "transform": tname, "image": "%012X" % C, "cc": m >> 3, "pi": (m >> 2) & 1, "lcss": m & 3, "emb_bits": "%08x" % mid})
+            cells.append((S, tname, mid, m, "a"))
+        if ctx.quick:
+            rng = ctx.rng("images", S, tname)
+            near = sorted(range(128), key=lambda m: (bin(words[m] ^ outer).count("1"), m))[:8]
+            ms = near + rng.sample([m for m in range(128) if m not in near], 8)
+        else:
+            ms = range(128)
+        for m in ms:
+            cells.append((S, tname, mid, m, "b"))
+
+    def work(chunk, t: Tally):
+        for S, tname, mid, m, kind in chunk:
+            rng = ctx.rng("images_voice", S, tname, m, kind)
+            for _ in range(3 if kind == "a" else 1):
+                c = {"center": "emb", "cc": m >> 3, "pi": (m >> 2) & 1, "lcss": m & 3, "emb_bits": "%08x" % mid, "voice": _voice_payload(rng)}
+                _SIDE.clear()
+                ctx.run_case(sub.name, oracle_voice, c, t)
+                t.case(sub.name, key=None, nontrivial=False, cls="image_is_itself_a_valid_emb_centre" if kind == "a" else "emb_word_around_image_middle")
+                t.cls(sub.name, "transform:" + tname)
+                if _SIDE.get("nonzero", True):
+                    t.nt_hashes.add(digest([sub.name, c]))
+                if kind == "a":
+                    t.sample(sub.name, c)
+
+    ctx.shards(work, [cells[i::64] for i in range(64)])
+    ctx.tally.extra["sync_images_generated"] = len(images)
+    ctx.tally.extra["sync_images_that_are_valid_emb_centres"] = kind_a
+    ctx.tally.extra["sync_images_that_are_valid_emb_centres_count"] = len(kind_a)
+
+
 def drv_voice_random(ctx: Ctx, sub: SubCheck):
     _preimport()
     from hypothesis import strategies as st
@@ -760,6 +867,7 @@ SUBCHECKS = [
     SubCheck("voice_grid", oracle_voice, drv_voice_grid, "all 128 (cc, PI, LCSS) EMB codewords and the 4 voice syncs x random vocoder/embedded bits: parse-then-serialise is the identity"),
     SubCheck("voice_boundary", oracle_voice, drv_voice_boundary, "every EMB value x {all-zero, all-ones, alternating} vocoder bits x {all-zero, all-ones, alternating} embedded bits; every voice sync x the vocoder patterns (complete)"),
     SubCheck("voice_near_sync", oracle_voice, drv_voice_near_sync, "voice bursts whose valid-EMB centre is at minimal Hamming distance from a SYNC pattern: 10 SYNC words x 128 EMB codewords with the SYNC word's own middle bits as embedded bits, and 1-2 embedded bits flipped"),
+    SubCheck("voice_sync_images", oracle_voice, drv_voice_sync_images, "voice bursts whose centre is (built around) a transformed image of a SYNC word: bit/byte/word reversal, in-octet swaps, rotations, complements; images that are themselves valid EMB centres are used as they are"),
     SubCheck("voice_random", oracle_voice, drv_voice_random, "Hypothesis-drawn voice bursts (both centre kinds): same oracle"),
 ]
 PREDICATES = {}
